@@ -5,6 +5,7 @@ package main
 // execute body once, assert at every back edge).
 
 import (
+	"sort"
 	"fmt"
 	"os"
 	"go/ast"
@@ -246,6 +247,11 @@ func (u *Unit) execBlock(st *State, stmts []ast.Stmt) []*Out {
 
 func (u *Unit) execStmt(st *State, s ast.Stmt, label string) []*Out {
 	u.curPos = s.Pos()
+	if len(u.frames) == 1 {
+		if _, isBlock := s.(*ast.BlockStmt); !isBlock {
+			u.curStmt = s.Pos()
+		}
+	}
 	u.runAnchors(st, "before", s)
 	outs := u.execStmt1(st, s, label)
 	return outs
@@ -339,6 +345,14 @@ func (u *Unit) execStmt1(st *State, s ast.Stmt, label string) []*Out {
 			for i, rv := range fr.results {
 				u.store(st, LV{kind: lvVar, obj: rv, T: rv.Type()}, u.convert(st, vals[i], rv.Type()))
 			}
+		}
+		if len(u.frames) == 1 && u.spec != nil && (len(u.spec.Ghost) > 0 || len(u.spec.Asserts) > 0) {
+			// anchor "returned": after the operands of a return statement were evaluated; $ret0.. are the results
+			extra := map[string]Value{}
+			for i, rv := range fr.results {
+				extra[fmt.Sprintf("$ret%d", i)] = u.load(st, LV{kind: lvVar, obj: rv, T: rv.Type()})
+			}
+			u.runAnchorsNamed(st, "returned", x.Pos(), extra)
 		}
 		return []*Out{{kind: oReturn, st: st}}
 	case *ast.IfStmt:
@@ -772,7 +786,16 @@ func (u *Unit) modified(nodes ...ast.Node) *modSet {
 			}
 			if pair, ok := c.Expr.([2]SpecExpr); ok {
 				if sg, ok := pair[0].(*SGo); ok {
-					name := types.ExprString(sg.E)
+					tgt := ast.Unparen(sg.E)
+					for {
+						// $m[k] = v writes the ghost map $m
+						if ix, ok := tgt.(*ast.IndexExpr); ok {
+							tgt = ast.Unparen(ix.X)
+							continue
+						}
+						break
+					}
+					name := types.ExprString(tgt)
 					if i := strings.LastIndex(name, ghostPrefix); i >= 0 {
 						m.ghost[name[i+len(ghostPrefix):]] = true
 					}
@@ -793,6 +816,49 @@ func (u *Unit) modified(nodes ...ast.Node) *modSet {
 func (u *Unit) anchorInRegion(anchor string, nodes []ast.Node) bool {
 	found := false
 	fr := u.top()
+	// anchor kinds this scan does not look for (mapstore:, afterstmt:, returned, ...) are taken to fire: what a
+	// ghost statement there writes is havocked at the loop head like everything else the body may change
+	known := false
+	for _, p := range []string{"send:", "recv:", "close:", "call:", "after:", "before:", "loop"} {
+		if strings.HasPrefix(anchor, p) {
+			known = true
+		}
+	}
+	if anchor == "return" || anchor == "wait" || anchor == "entry" || anchor == "returned" {
+		known = true
+	}
+	if strings.HasPrefix(anchor, "afterstmt:") || strings.HasPrefix(anchor, "mapstore:") {
+		// statement anchors: look for the inc/dec statement or the map store they name
+		hit := false
+		for _, n := range nodes {
+			if n == nil {
+				continue
+			}
+			ast.Inspect(n, func(n ast.Node) bool {
+				switch x := n.(type) {
+				case *ast.IncDecStmt:
+					t := "afterstmt:" + exprText(x.X) + x.Tok.String()
+					if anchor == t || anchor == u.stableText(t) {
+						hit = true
+					}
+				case *ast.AssignStmt:
+					for _, l := range x.Lhs {
+						if ix, ok := ast.Unparen(l).(*ast.IndexExpr); ok {
+							t := "mapstore:" + exprText(ix.X)
+							if anchor == t || anchor == u.stableText(t) {
+								hit = true
+							}
+						}
+					}
+				}
+				return !hit
+			})
+		}
+		return hit
+	}
+	if !known {
+		return true
+	}
 	for _, n := range nodes {
 		if n == nil || found {
 			continue
@@ -1491,4 +1557,266 @@ func (u *Unit) siteName(n ast.Node) string {
 		base = u.eng.fset.Position(fr.body.Pos()).Line
 	}
 	return fmt.Sprintf("L%d", u.eng.fset.Position(n.Pos()).Line-base)
+}
+
+// ---- memory this function allocated and has not given away yet
+
+// escapePositions: for the variables of localAllocs (they only ever hold memory this function allocated), the
+// position from which on that memory may be known to someone else: the first statement - lifted to its outermost
+// enclosing loop - in which the variable occurs other than as v[i], len(v), cap(v), range v, delete(v, k),
+// v = append(v, ...) or v = make(...). Inside a function literal counts at the statement creating the literal.
+// A variable without such an occurrence never escapes (position beyond the body).
+func (u *Unit) escapePositions(fr *frame) map[types.Object]token.Pos {
+	if fr.escPos != nil {
+		return fr.escPos
+	}
+	fr.escPos = map[types.Object]token.Pos{}
+	if fr.body == nil {
+		return fr.escPos
+	}
+	if fr.localAllocs == nil {
+		saved := u.frames
+		u.frames = []*frame{fr}
+		fr.localAllocs = u.localAllocs(fr.body)
+		u.frames = saved
+	}
+	info := fr.info
+	hasGoto := false
+	never := fr.body.End() + 1
+	for v := range fr.localAllocs {
+		fr.escPos[v] = never
+	}
+	var stack []ast.Node
+	note := func(id *ast.Ident) {
+		obj := info.ObjectOf(id)
+		if obj == nil || !fr.localAllocs[obj] {
+			return
+		}
+		// statement position: outermost enclosing loop, else outermost statement holding an enclosing literal,
+		// else the innermost enclosing non-block statement
+		var pos token.Pos
+		var innermost ast.Stmt
+		for _, n := range stack {
+			switch x := n.(type) {
+			case *ast.ForStmt, *ast.RangeStmt:
+				if !pos.IsValid() {
+					pos = n.Pos()
+				}
+			case ast.Stmt:
+				if _, isBlock := x.(*ast.BlockStmt); !isBlock {
+					innermost = x
+				}
+			}
+		}
+		if !pos.IsValid() {
+			// literal: the outermost statement that contains a FuncLit on the stack
+			var lastStmtBeforeLit ast.Stmt
+			var cur ast.Stmt
+			for _, n := range stack {
+				if s, ok := n.(ast.Stmt); ok {
+					if _, isBlock := s.(*ast.BlockStmt); !isBlock {
+						cur = s
+					}
+				}
+				if _, ok := n.(*ast.FuncLit); ok && lastStmtBeforeLit == nil {
+					lastStmtBeforeLit = cur
+				}
+			}
+			if lastStmtBeforeLit != nil {
+				pos = lastStmtBeforeLit.Pos()
+			} else if innermost != nil {
+				pos = innermost.Pos()
+			} else {
+				pos = fr.body.Pos()
+			}
+		}
+		if pos < fr.escPos[obj] {
+			fr.escPos[obj] = pos
+		}
+	}
+	var walk func(n ast.Node, benign bool)
+	walk = func(n ast.Node, benign bool) {
+		if n == nil {
+			return
+		}
+		stack = append(stack, n)
+		defer func() { stack = stack[:len(stack)-1] }()
+		switch x := n.(type) {
+		case *ast.Ident:
+			if !benign {
+				note(x)
+			}
+			return
+		case *ast.BranchStmt:
+			if x.Tok == token.GOTO {
+				hasGoto = true
+			}
+		case *ast.IndexExpr:
+			// v[i]: v itself is used benignly, the index is an ordinary expression
+			if id, ok := ast.Unparen(x.X).(*ast.Ident); ok {
+				walk(id, true)
+			} else {
+				walk(x.X, false)
+			}
+			walk(x.Index, false)
+			return
+		case *ast.UnaryExpr:
+			if x.Op == token.AND {
+				// &v[i], &v: the address leaves
+				ast.Inspect(x.X, func(m ast.Node) bool {
+					if id, ok := m.(*ast.Ident); ok {
+						stack = append(stack, id)
+						note(id)
+						stack = stack[:len(stack)-1]
+					}
+					return true
+				})
+				return
+			}
+		case *ast.RangeStmt:
+			walk(x.Key, false)
+			walk(x.Value, false)
+			if id, ok := ast.Unparen(x.X).(*ast.Ident); ok {
+				walk(id, true)
+			} else {
+				walk(x.X, false)
+			}
+			walk(x.Body, false)
+			return
+		case *ast.CallExpr:
+			if id, ok := ast.Unparen(x.Fun).(*ast.Ident); ok {
+				if _, isB := info.Uses[id].(*types.Builtin); isB {
+					switch id.Name {
+					case "len", "cap":
+						for _, a := range x.Args {
+							if aid, ok := ast.Unparen(a).(*ast.Ident); ok {
+								walk(aid, true)
+							} else {
+								walk(a, false)
+							}
+						}
+						return
+					case "delete":
+						for i, a := range x.Args {
+							if aid, ok := ast.Unparen(a).(*ast.Ident); ok && i == 0 {
+								walk(aid, true)
+							} else {
+								walk(a, false)
+							}
+						}
+						return
+					case "make", "new":
+						for _, a := range x.Args[1:] {
+							walk(a, false)
+						}
+						return
+					}
+				}
+			}
+		case *ast.AssignStmt:
+			// v = append(v, e...) and v = make(...): v on both sides is benign
+			for i, l := range x.Lhs {
+				lid, isId := ast.Unparen(l).(*ast.Ident)
+				if isId {
+					walk(lid, true)
+				} else {
+					walk(l, false)
+				}
+				if len(x.Rhs) != len(x.Lhs) {
+					continue
+				}
+				r := ast.Unparen(x.Rhs[i])
+				if c, ok := r.(*ast.CallExpr); ok && isId {
+					if f, ok := ast.Unparen(c.Fun).(*ast.Ident); ok && f.Name == "append" && len(c.Args) > 0 {
+						if a0, ok := ast.Unparen(c.Args[0]).(*ast.Ident); ok && info.ObjectOf(a0) == info.ObjectOf(lid) {
+							walk(a0, true)
+							for _, a := range c.Args[1:] {
+								walk(a, false)
+							}
+							continue
+						}
+					}
+				}
+				walk(x.Rhs[i], false)
+			}
+			if len(x.Rhs) != len(x.Lhs) {
+				for _, r := range x.Rhs {
+					walk(r, false)
+				}
+			}
+			return
+		case *ast.SelectorExpr:
+			// v.f does not occur for slices / maps; walk the operand only
+			walk(x.X, false)
+			return
+		case *ast.KeyValueExpr:
+			// composite literal keys may be field names (not variables)
+			walk(x.Value, false)
+			if _, isId := x.Key.(*ast.Ident); !isId {
+				walk(x.Key, false)
+			}
+			return
+		}
+		// generic traversal of children
+		var kids []ast.Node
+		ast.Inspect(n, func(m ast.Node) bool {
+			if m == n {
+				return true
+			}
+			if m != nil {
+				kids = append(kids, m)
+			}
+			return false
+		})
+		for _, k := range kids {
+			walk(k, false)
+		}
+	}
+	walk(fr.body, false)
+	if hasGoto {
+		for v := range fr.escPos {
+			fr.escPos[v] = fr.body.Pos()
+		}
+	}
+	return fr.escPos
+}
+
+// localKeep: the rows (slice backing arrays, maps) held right now by variables whose memory has not been given
+// away before the current statement. Only for the function under contract's own frame.
+func (u *Unit) localKeep(st *State) []keepRef {
+	// (while a contract-less helper is inlined the current statement is still the caller's: the helper cannot
+	// reach the caller's unshared memory either)
+	if len(u.frames) == 0 || !u.curStmt.IsValid() {
+		return nil
+	}
+	fr := u.frames[0]
+	if fr.body == nil || u.curStmt < fr.body.Pos() || u.curStmt > fr.body.End() {
+		return nil
+	}
+	esc := u.escapePositions(fr)
+	var objs []types.Object
+	for v, p := range esc {
+		if u.curStmt < p {
+			objs = append(objs, v)
+		}
+	}
+	sort.Slice(objs, func(i, j int) bool { return objs[i].Pos() < objs[j].Pos() })
+	var out []keepRef
+	for _, v := range objs {
+		val, ok := st.vars[v]
+		if !ok {
+			continue
+		}
+		switch t := v.Type().Underlying().(type) {
+		case *types.Slice:
+			if val.isSlice() {
+				out = append(out, keepRef{ref: val.base(), prefixes: []string{"M:" + typeKey(t.Elem()) + ":"}})
+			}
+		case *types.Map:
+			if len(val.L) == 1 {
+				out = append(out, keepRef{ref: val.term(), prefixes: []string{"MD:" + typeKey(v.Type()), "MV:" + typeKey(v.Type()) + ":"}})
+			}
+		}
+	}
+	return out
 }
